@@ -28,7 +28,8 @@ func blockIf(b *ssa.BasicBlock) *ssa.If {
 	return i
 }
 
-// phiCond: the block's If condition is (a negation of) a boolean phi defined in the same block.
+// phiCond: the block's If condition is (a negation of) a boolean phi - a flag assigned on several paths
+// (`x := a && b; if x`, or `ok := false; if c { ok = true }; ...; if ok`). The phi may live in any dominating block.
 func phiCond(b *ssa.BasicBlock) (*ssa.Phi, bool) {
 	iff := blockIf(b)
 	if iff == nil {
@@ -36,7 +37,7 @@ func phiCond(b *ssa.BasicBlock) (*ssa.Phi, bool) {
 	}
 	v, flip := stripNot(iff.Cond)
 	phi, ok := v.(*ssa.Phi)
-	if !ok || phi.Block() != b || !isBoolType(phi.Type()) {
+	if !ok || !isBoolType(phi.Type()) {
 		return nil, false
 	}
 	return phi, flip
@@ -55,42 +56,139 @@ func predIndex(b, from *ssa.BasicBlock) int {
 	return idx
 }
 
-type rstate struct{ b, from *ssa.BasicBlock }
+var flagPhiCache = map[*ssa.Function][]*ssa.Phi{}
 
-// reachCore: forward reachability over (block, entered-from) states with the removed edges, pruning the infeasible
-// successor of a boolean-phi condition whose incoming value is a constant. scan is called once per visited state
+// flagPhis: boolean phis used as If conditions in fn (directly or as an incoming value of such a phi).
+func flagPhis(fn *ssa.Function) []*ssa.Phi {
+	if r, ok := flagPhiCache[fn]; ok {
+		return r
+	}
+	seen := map[*ssa.Phi]bool{}
+	var res []*ssa.Phi
+	var add func(phi *ssa.Phi)
+	add = func(phi *ssa.Phi) {
+		if seen[phi] || len(res) >= 6 {
+			return
+		}
+		seen[phi] = true
+		res = append(res, phi)
+		for _, e := range phi.Edges {
+			if p2, ok := e.(*ssa.Phi); ok && isBoolType(p2.Type()) {
+				add(p2)
+			}
+		}
+	}
+	for _, b := range fn.Blocks {
+		if phi, _ := phiCond(b); phi != nil {
+			add(phi)
+		}
+	}
+	flagPhiCache[fn] = res
+	return res
+}
+
+// rstate: a block plus, for each tracked flag phi, the predecessor index through which the phi's block was last entered (-1 unknown).
+type rstate struct {
+	b    *ssa.BasicBlock
+	from *ssa.BasicBlock // only used to seed the first transition
+	env  string
+}
+
+func envGet(env string, i int) int {
+	if i >= len(env) {
+		return -1
+	}
+	return int(env[i]) - 1
+}
+
+func envSet(env string, n, i, v int) string {
+	bs := []byte(env)
+	for len(bs) < n {
+		bs = append(bs, 0)
+	}
+	bs[i] = byte(v + 1)
+	return string(bs)
+}
+
+// flagValue resolves the value a flag phi has in the given environment: a constant, another value, or unknown.
+func flagValue(phis []*ssa.Phi, env string, phi *ssa.Phi, depth int) (ssa.Value, *ssa.BasicBlock) {
+	for i, p := range phis {
+		if p != phi {
+			continue
+		}
+		k := envGet(env, i)
+		if k < 0 || k >= len(phi.Edges) {
+			return nil, nil
+		}
+		e := phi.Edges[k]
+		if p2, ok := e.(*ssa.Phi); ok && depth < 4 && isBoolType(p2.Type()) {
+			if v, pb := flagValue(phis, env, p2, depth+1); v != nil {
+				return v, pb
+			}
+		}
+		return e, phi.Block().Preds[k]
+	}
+	return nil, nil
+}
+
+// reachCore: forward reachability over (block, flag environment) states with the removed edges, pruning the infeasible
+// successor of a flag condition whose current value is a constant. scan is called once per visited state
 // with the index to start at and returns false to stop propagation from that block.
 func reachCore(starts []rstate, startIdx int, removed []Edge, scan func(b *ssa.BasicBlock, start int) bool) map[*ssa.BasicBlock]bool {
 	rm := map[Edge]bool{}
 	for _, e := range removed {
 		rm[e] = true
 	}
-	seen := map[rstate]bool{}
 	blocks := map[*ssa.BasicBlock]bool{}
+	if len(starts) == 0 {
+		return blocks
+	}
+	fn := starts[0].b.Parent()
+	phis := flagPhis(fn)
+	np := len(phis)
+	type key struct {
+		b   *ssa.BasicBlock
+		env string
+	}
+	seen := map[key]bool{}
 	var stack []rstate
+	enter := func(from, to *ssa.BasicBlock, env string) string {
+		for i, phi := range phis {
+			if phi.Block() == to {
+				env = envSet(env, np, i, predIndex(to, from))
+			}
+		}
+		return env
+	}
 	expand := func(st rstate) {
 		phi, flip := phiCond(st.b)
+		var cur ssa.Value
+		var curPred *ssa.BasicBlock
+		if phi != nil {
+			cur, curPred = flagValue(phis, st.env, phi, 0)
+		}
 		for i, s := range st.b.Succs {
 			if rm[Edge{st.b, i, nil}] {
 				continue
 			}
-			if phi != nil && st.from != nil {
-				if k := predIndex(st.b, st.from); k >= 0 {
-					if c, ok := boolConst(phi.Edges[k]); ok {
-						val := c != flip
-						if (i == 0) != val {
-							continue
-						}
-					}
-					if rm[Edge{st.b, i, st.from}] {
+			if cur != nil {
+				if c, ok := boolConst(cur); ok {
+					val := c != flip
+					if (i == 0) != val {
 						continue
 					}
 				}
+				if curPred != nil && rm[Edge{st.b, i, curPred}] {
+					continue
+				}
 			}
-			stack = append(stack, rstate{s, st.b})
+			stack = append(stack, rstate{b: s, env: enter(st.b, s, st.env)})
 		}
 	}
 	for _, s := range starts {
+		if s.from != nil {
+			s.env = enter(s.from, s.b, s.env)
+		}
 		if startIdx > 0 {
 			// partial first block: not marked visited (it may be re-entered from the top through a loop)
 			if scan == nil || scan(s.b, startIdx) {
@@ -103,13 +201,11 @@ func reachCore(starts []rstate, startIdx int, removed []Edge, scan func(b *ssa.B
 	for len(stack) > 0 {
 		st := stack[len(stack)-1]
 		stack = stack[:len(stack)-1]
-		if phi, _ := phiCond(st.b); phi == nil {
-			st.from = nil
-		}
-		if seen[st] {
+		k := key{st.b, st.env}
+		if seen[k] {
 			continue
 		}
-		seen[st] = true
+		seen[k] = true
 		blocks[st.b] = true
 		if scan != nil && !scan(st.b, 0) {
 			continue
@@ -124,12 +220,12 @@ func reachWithout(fn *ssa.Function, removed []Edge) map[*ssa.BasicBlock]bool {
 	if len(fn.Blocks) == 0 {
 		return map[*ssa.BasicBlock]bool{}
 	}
-	return reachCore([]rstate{{fn.Blocks[0], nil}}, 0, removed, nil)
+	return reachCore([]rstate{{b: fn.Blocks[0]}}, 0, removed, nil)
 }
 
 // reachFrom returns blocks reachable from block start (inclusive) with edges removed.
 func reachFrom(start *ssa.BasicBlock, removed []Edge) map[*ssa.BasicBlock]bool {
-	return reachCore([]rstate{{start, nil}}, 0, removed, nil)
+	return reachCore([]rstate{{b: start}}, 0, removed, nil)
 }
 
 // ---------------------------------------------------------------------------------------------
@@ -327,8 +423,8 @@ func condEdges(fn *ssa.Function, classify func(cond ssa.Value, at *ssa.If) int) 
 					pol = -pol
 				}
 				ed := edgeFor(b, pol)
-				ed.Pred = b.Preds[k]
-				if predIndex(b, ed.Pred) == k {
+				ed.Pred = phi.Block().Preds[k]
+				if predIndex(phi.Block(), ed.Pred) == k {
 					res = append(res, ed)
 				}
 			}
